@@ -94,6 +94,7 @@ def alphabets(seed, thorough):
     hool3 = P('1', 'HOOL', C('4.00', 'USD', d2))
     inv2 = I(P('-8.80750', 'USD'), P('2.5', 'HOOL', C('3', 'USD', d1)))
     inv3 = I(P('-7', 'EUR'), hool2, hool3)
+    invmix = I(P('2', 'HOOL'), P('30.00', 'USD'))     # HOOL without cost, while other rows hold it at cost
     inv7 = I(P('1', 'USD'), P('2', 'EUR'), hool2, hool3, P('4.5', 'GBP'), P('5', 'CAD'), P('600', 'JPY'))
     plus = (lambda *v: list(v)) if thorough else (lambda *v: [])
     full = {
@@ -108,7 +109,7 @@ def alphabets(seed, thorough):
         'amount': [None, A(o_amt, 'USD'), A('-1000', 'HOOL'), A('0', 'EUR'), A('3.14159', 'USD'), A('-2.80750', 'USD')] + plus(A('100', 'JPY')),
         'position': [None, hool1, P('-3', 'USD'), hool2, P('7', 'EUR'), P('-2.80750', 'USD')],
         'cost': [None, C('2.50', 'USD', d1, 'lbl'), C('3.00', 'USD', d1), C('1234.5678', 'EUR', d2)],
-        'inventory': [None, I(), I(P('1', 'USD')), inv2, inv3, inv7] + plus(I(P('-8.80750', 'USD'), P('7', 'EUR'), hool1, hool2)),
+        'inventory': [None, I(), I(P('1', 'USD')), invmix, inv2, inv3, inv7] + plus(I(P('-8.80750', 'USD'), P('7', 'EUR'), hool1, hool2)),
     }
     reduced = {
         'int': [None, -300, o_int],
@@ -122,7 +123,7 @@ def alphabets(seed, thorough):
         'amount': [None, A(o_amt, 'USD'), A('-1000', 'HOOL'), A('3.14159', 'USD')] + plus(A('0', 'EUR')),
         'position': [None, hool1, P('-3', 'USD')],
         'cost': [None, C('2.50', 'USD', d1, 'lbl'), C('1234.5678', 'EUR', d2)],
-        'inventory': [None, I(), inv2, inv3] + plus(inv7),
+        'inventory': [None, I(), invmix, inv2, inv3],
     }
     return full, reduced
 
@@ -259,6 +260,8 @@ def walk_body(body, nl, dtypes, rows, o, stats):
     k = 0
     records = []
     dots = [set() for _ in dtypes]
+    # lots[j]: (commodity, n-th lot of it, 'units' / 'cost') -> offsets seen; None = column exempt / not amount-like
+    lots = [lot_table(t, [r[j] for r in rows], o['expand'], stats) for j, t in enumerate(dtypes)]
     for i, row in enumerate(rows):
         lines = body[k:k + nl[i]]
         k += nl[i]
@@ -280,12 +283,49 @@ def walk_body(body, nl, dtypes, rows, o, stats):
                     stats['align_exempt'] += 1
                 else:
                     dots[j].add(off)
+            elif v is not None and lots[j] is not None:
+                for cur, nth, units, cost in R.lot_offsets(stats['cell']):
+                    key = cur if t is R.Inventory else '*'      # a Position column has one renderer for all commodities
+                    lots[j].setdefault((key, nth, 'units'), []).append(units)
+                    if cost is not None:
+                        lots[j].setdefault((key, nth, 'cost'), []).append(cost)
     for j, s in enumerate(dots):
         if s:
             stats['align_columns'] += 1
         if len(s) > 1:
             probs.append(('align', j, f'column {j} ({R.DTNAME[dtypes[j]]}): decimal points at offsets {sorted(s)}'))
+    for j, tab in enumerate(lots):
+        for key, offs in sorted((tab or {}).items()):
+            if len(offs) > 1:
+                stats['lot_offsets_compared'] += 1
+            if len(set(offs)) > 1:
+                what = 'positions' if key[0] == '*' else f'lot {key[1]} of {key[0]}'
+                probs.append(('lot-offset', j, f'column {j} ({R.DTNAME[dtypes[j]]}): the {key[2]} of {what} have their (decimal point, currency symbol) '
+                                               f'at offsets {sorted(set(offs))} in different rows'))
+                break
     return probs, records
+
+
+def lot_table(dtype, values, expand, stats):
+    """{} when the column falls under the fixed-offset clause: Position columns, and Inventory columns rendered
+    without expand in the tabular layout (at most 5 slots = sum over commodities of the largest number of lots
+    one row holds; beyond that the renderer documents a plain list).  None otherwise."""
+    if dtype is R.Position:
+        return {}
+    if dtype is not R.Inventory or expand:
+        return None
+    slots = {}
+    for v in values:
+        if v is not None:
+            n = {}
+            for p in v.get_positions():
+                n[p.units.currency] = n.get(p.units.currency, 0) + 1
+            for c, k in n.items():
+                slots[c] = max(slots.get(c, 0), k)
+    if sum(slots.values()) > 5:
+        stats['lot_offset_columns_exempt_over_5_slots'] += 1
+        return None
+    return {}
 
 
 def check_csv(names, dtypes, rows, expand, null, stats):
@@ -527,6 +567,8 @@ def run(ctx):
         'tables_rendered_with_expanded_rows': n['expanded_tables'],
         'columns_checked_for_decimal_point_alignment': n['align_columns'], 'cells_exempt_scientific_notation': n['align_exempt'],
         'csv_fields_compared_with_text_cells': n['csv_fields'],
+        'lot_offset_groups_compared_across_rows': n['lot_offsets_compared'],
+        'inventory_columns_exempt_from_lot_offsets_over_5_slots': n['lot_offset_columns_exempt_over_5_slots'],
         'distinct_line_widths': len(acc.sets['widths']),
         'violating_cases': n['violating_cases'],
         'violating_cases_by_fingerprint': {k[3:]: v for k, v in sorted(n.items()) if k.startswith('fp ')},
